@@ -118,6 +118,18 @@ func runC11(c *Ctx) {
 		}
 		fault := []string{"none", "none", "delete-fails-1", "delete-fails-3", "resource-unknown", "prepare-fails-2"}[r.Intn(6)]
 		callers := 1 + r.Intn(3)
+		// directed: the one commit worker is held up by a slow server, its hand-over buffer and the commit queue
+		// fill up, and then a group of requests for a resource that is not known yet has to be put back
+		pressure := i%5 == 4
+		if pressure {
+			rows, reqs = nil, nil
+			for _, q := range []c11Req{{1, 1, 1}, {2, 1, 1}, {2, 1, 2}, {2, 2, 1}, {2, 2, 2}, {1, 2, 1}, {1, 2, 2}, {2, 3, 1}, {2, 3, 2}, {2, 3, 3}, {1, 3, 1}} {
+				rows = append(rows, q)
+				reqs = append(reqs, q)
+			}
+			conf = sql2.AsyncWorkerConfig{BufferLimit: 3, BufferCleanInterval: 5 * time.Millisecond, ReceiveChanSize: 1, CommitWorkerCount: 1, CommitWorkerBufferSize: 1}
+			fault, callers = "resource-unknown", 1+i%2
+		}
 		if !c.Want(cid) {
 			continue
 		}
@@ -146,6 +158,9 @@ func runC11(c *Ctx) {
 			// the second resource is not (yet) known to the resource manager
 			hidden, _ = mgr.GetCachedResources().Load(r2.id)
 			mgr.GetCachedResources().Delete(r2.id)
+			if pressure {
+				rs[0].eng.AddFault(memdb.Fault{Kind: "delete", Table: "undo_log", Nth: 1, Delay: 60 * time.Millisecond})
+			}
 		}
 		worker := sql2.NewAsyncWorker(prometheus.NewRegistry(), conf, mgr)
 		answers := make([]string, len(reqs))
@@ -239,6 +254,7 @@ func runC11(c *Ctx) {
 		c.Out.Oracle(cid, class == "", class, fmt.Sprintf("%s | conf=%+v fault=%s callers=%d", detail, conf, fault, callers))
 		c.Out.Tag(cid, fmt.Sprintf("nontrivial=%d", b2i(len(reqs) > 0)))
 		c.Out.Count("fault." + fault)
+		c.Out.Count(fmt.Sprintf("pressure=%v", pressure))
 		c.Out.Count(fmt.Sprintf("chan=%d", conf.ReceiveChanSize))
 		c.Out.Count(fmt.Sprintf("limit=%d", conf.BufferLimit))
 	}
